@@ -78,6 +78,9 @@ def run_case(c, do_build=False):
         try:
             ctx = xo.ContextCpu()
             ctx.add_kernels(kernels={}, extra_classes=list(roots))
+            xo.context.sort_classes(list(roots))
+            ctx2 = xo.ContextCpu()           # and once more: a build must leave the classes as it found them
+            ctx2.add_kernels(kernels={}, extra_classes=list(roots))
             res["build"] = "ok"
         except BaseException as e:  # noqa
             res["build"] = "%s: %s" % (type(e).__name__, str(e)[:300])
@@ -209,6 +212,17 @@ def main():
                     roots.append(len(spec) - 1)
             c = {"spec": spec, "roots": roots, "warm": (i % 3 == 2) and any(d.get("depends") or d.get("late_members") for d in spec)}
             out.append({"spec": spec, "roots": roots, "warm": c["warm"], "res": run_case(c, do_build=(i < nb))})
+        base = [{"kind": "scalar", "name": "Float64"}, {"kind": "struct", "fields": [0]}, {"kind": "struct", "fields": [0, 0]}, {"kind": "union", "members": [1], "depends": [2]},
+                {"kind": "struct", "fields": [3, 0]}]
+        for roots in ([4], [3]):
+            c = {"spec": base, "roots": roots}
+            out.append({"spec": base, "roots": roots, "res": run_case(c, do_build=True)})
+        # directed: an array of single-type references to a class reachable by no other path
+        base = [{"kind": "scalar", "name": "Float64"}, {"kind": "struct", "fields": [0]}, {"kind": "ref", "target": 1}, {"kind": "array", "item": 2, "shape": [None]},
+                {"kind": "struct", "fields": [0, 3]}]
+        for roots in ([4], [3]):
+            c = {"spec": base, "roots": roots}
+            out.append({"spec": base, "roots": roots, "res": run_case(c, do_build=True)})
         # directed: two classes whose names differ only in letter case, used together (really built)
         base = [{"kind": "scalar", "name": "Float64"}, {"kind": "struct", "fields": [0], "name_case": "lower"}, {"kind": "struct", "fields": [0, 0], "name_case": "upper"},
                 {"kind": "struct", "fields": [1, 2]}]
